@@ -36,7 +36,7 @@ pub fn run(ctx: &mut Ctx) {
     for (n, ok) in r9::selftest(false) {
         ctx.selftest(&n, ok);
     }
-    ctx.require(&["ha=q(N-1)+r", "ha_r=0", "ha_r=N-2", "ha_top_limb_ones", "ha_all_ff", "ha_random", "ha_64_bytes", "ha_small", "h1", "h2", "extract_sign", "extract_enc", "extract_exch", "extract_fails_when_t1=0", "extract_ok_next_to_failure", "annex_keys", "id_empty", "id_long"]);
+    ctx.require(&["ha=q(N-1)+r", "ha_r=0", "ha_r=N-2", "ha_top_limb_ones", "ha_all_ff", "ha_random", "ha_64_bytes", "ha_small", "h1", "h2", "extract_sign", "extract_enc", "extract_exch", "extract_fails_when_t1=0", "extract_ok_next_to_failure", "annex_keys", "id_empty", "id_long", "h1_same_id_all_hids"]);
     let pr = r9::params();
     let nm1 = &pr.n - 1u32;
     let two320: BigUint = BigUint::one() << 320;
@@ -147,6 +147,31 @@ pub fn run(ctx: &mut Ctx) {
         }
     }
 
+    // --- one identity through every hid and through all three extractions under two master keys, consecutively
+    let n = ctx.n(24, 600);
+    let mut prng = ctx.prng("consecutive");
+    for i in 0..n {
+        let sub = prng.next();
+        if !ctx.mine(i) {
+            continue;
+        }
+        let mut p = Prng::new(sub, "c");
+        let idl = p.range(0, 20);
+        let id = p.bytes(idl);
+        for hid in [1u8, 2, 3, 2, 1] {
+            ctx.eval();
+            ctx.class("h1_same_id_all_hids");
+            let e = r9::h1(&id, hid);
+            match guard(|| hk::hash1(&id, hid)) {
+                Outcome::Ret(v) if r9::from_limbs(&v) == e => {}
+                o => ctx.violation(&format!("H1:same-id-consecutive-hids:{}", if o.is_ret() { "wrong-value" } else { o.class() }), json!({"id": hx(&id), "hid": hid})),
+            }
+        }
+        let (k1, k2) = (scalar_for(&mut p, 100), scalar_for(&mut p, 100));
+        for (k, hid) in [(&k1, 1u8), (&k1, 3), (&k1, 2), (&k2, 2), (&k2, 3), (&k2, 1), (&k1, 1)] {
+            extract_case(ctx, k, &id, hid, "consecutive_same_id");
+        }
+    }
     // --- extractions
     if ctx.shard == 0 {
         // Annex keys
